@@ -30,7 +30,7 @@ struct VerifyOut {
 	uint64_t faults_fired = 0;
 };
 VerifyOut lib_verify(Ctx &ctx, jwt_checker_t *c, const char *token, bool c14 = true, int64_t fail_at = 0,
-		     bool fail_from = false);
+		     bool fail_from = false, int64_t fail_at2 = 0);
 
 struct GenerateOut {
 	bool ok = false;
@@ -40,7 +40,7 @@ struct GenerateOut {
 	uint64_t alloc_reqs = 0;
 	uint64_t faults_fired = 0;
 };
-GenerateOut lib_generate(Ctx &ctx, jwt_builder_t *b, bool c14 = true, int64_t fail_at = 0, bool fail_from = false);
+GenerateOut lib_generate(Ctx &ctx, jwt_builder_t *b, bool c14 = true, int64_t fail_at = 0, bool fail_from = false, int64_t fail_at2 = 0);
 
 // Reference token construction (independent of libjwt): header/payload JSON text -> token.
 // alg NULL or FAM_NONE: unsigned ("h.p."). Returns false if the key cannot sign with alg.
